@@ -216,6 +216,37 @@ static void run_conversions(Ctx& ctx) {
     }
   }
   {
+    // every 32-bit lane content is a legal c lane (the products take unreduced c operands): all pairs of a lane alphabet that
+    // contains 0, 1, q-1, q, q+1, 2q, the neighbours of 2^31, and the values whose pairwise sums hit 2^32-1, 2^32 and 2^32+1
+    std::string id = "conversion|q120_add_ccc_simple|lazy c lanes (all pairs)";
+    if (ctx.want(id)) {
+      ctx.begin_case(id);
+      bool bad = false;
+      for (int k = 0; k < 4 && !bad; ++k) {
+        const uint64_t q = QS[k];
+        std::vector<uint32_t> L = {0u, 1u, 2u, (uint32_t)(q - 1), (uint32_t)q, (uint32_t)(q + 1), (uint32_t)(2 * q), 0x7FFFFFFFu, 0x80000000u, 0x80000001u,
+                                   (uint32_t)(0x100000000ull - q - 1), (uint32_t)(0x100000000ull - q), (uint32_t)(0x100000000ull - q + 1), 0xFFFFFFFEu, 0xFFFFFFFFu};
+        const uint64_t nl = L.size(), np = nl * nl;
+        GBuf x(np * 32, 8), y(np * 32, 16), r(np * 32, 24);
+        memset(x.p, 0, x.bytes); memset(y.p, 0, y.bytes);
+        // pair (i, j) in element i*nl+j; even lane of prime k gets (L[i], L[j]), odd lane the swapped roles shifted by one
+        for (uint64_t i = 0; i < nl; ++i) for (uint64_t j = 0; j < nl; ++j) {
+          uint64_t e = i * nl + j;
+          x.as<uint32_t>()[8 * e + 2 * k] = L[i]; y.as<uint32_t>()[8 * e + 2 * k] = L[j];
+          x.as<uint32_t>()[8 * e + 2 * k + 1] = L[j]; y.as<uint32_t>()[8 * e + 2 * k + 1] = L[(i + 1) % nl];
+        }
+        q120_add_ccc_simple(np, (q120c*)r.p, (q120c*)x.p, (q120c*)y.p);
+        for (uint64_t e = 0; e < np && !bad; ++e) for (int lane = 0; lane < 8; ++lane) {
+          uint64_t want = ((uint64_t)x.as<uint32_t>()[8 * e + lane] + (uint64_t)y.as<uint32_t>()[8 * e + lane]) % QS[lane / 2];
+          uint64_t got = r.as<uint32_t>()[8 * e + lane] % QS[lane / 2];
+          if (got != want) { ctx.violation(id, sfmt("add_ccc lane %d (prime %d): %u + %u gives %u, which is %llu mod q instead of %llu", lane, lane / 2, x.as<uint32_t>()[8 * e + lane], y.as<uint32_t>()[8 * e + lane], r.as<uint32_t>()[8 * e + lane], (unsigned long long)got, (unsigned long long)want)); bad = true; break; }
+        }
+        if (!r.guards_ok() || !x.guards_ok() || !y.guards_ok()) { ctx.violation(id, "add_ccc wrote outside a declared extent"); bad = true; }
+      }
+      ctx.end_case(true);
+    }
+  }
+  {
     std::string id = "conversion|q120_b_to_znx128_simple|centred representative (canonical and lazy lanes)";
     if (ctx.want(id)) {
       ctx.begin_case(id);
